@@ -37,7 +37,7 @@ pub fn prop_bit(name: &str) -> Option<u32> {
     ALL_PROPS.iter().find(|(_, n)| *n == name).map(|(b, _)| *b)
 }
 
-pub const MAX_CHAIN_LEN: usize = 200;
+pub const MAX_CHAIN_LEN: usize = 320;
 pub const MAX_SEARCHERS: usize = 3;
 pub const MAX_DEPTH: usize = 8;
 
@@ -1100,6 +1100,11 @@ impl World {
             }
             Ok(()) => {
                 self.stats.hit("op.push-accepted");
+                if len0 + 1 == 256 {
+                    self.stats.hit("probe.chain-longer-than-255-plies");
+                } else if len0 + 1 == 129 {
+                    self.stats.hit("probe.chain-longer-than-128-plies");
+                }
                 self.invalidate();
                 if self.chain.len() != len0 + 1 {
                     if self.on(C13) {
